@@ -121,6 +121,13 @@ def rand_matrix(rng, n, cls, cplx):
     elif cls == "symindef":
         B = rn(n, n)
         A = (B + B.conj().T) / 2 + np.diag(np.where(np.arange(n) % 2 == 0, 3.0, -3.0) * max(1, n / 2))
+    elif cls == "symzd":   # self-adjoint with a ZERO diagonal: the LDL factorisation needs 2x2 pivot blocks
+        for _ in range(50):
+            B = rn(n, n)
+            A = (B + B.conj().T) / 2
+            A[np.arange(n), np.arange(n)] = 0
+            if n >= 2 and np.linalg.cond(A) < 200:
+                break
     elif cls == "csym":  # complex symmetric, not Hermitian
         B = rn(n, n)
         A = (B + B.T) / 2 + (2 + 1j) * n * np.eye(n) / 2
@@ -224,7 +231,7 @@ def solver_choices(cls, sparse, cplx):
         out += ["DenseQR", "DenseLU"]
         if herm_pd:
             out += ["DenseCholesky", "DenseLDL"]
-        if cls in ("symindef", "csym", "dynstiff", "csymindef"):
+        if cls in ("symindef", "symzd", "csym", "dynstiff", "csymindef"):
             out += ["DenseLDL"]
     if cls == "diag":
         out += ["Diagonal"]
@@ -794,6 +801,12 @@ def specs(ctx):
                 for sname in solver_choices(cls, sparse, cplx):
                     for rep in range(1 if quick else 4):
                         out.append({"stream": "linsolve", "seed": seed(), "cls": cls, "sparse": sparse, "cplx": cplx, "solver": sname})
+    # self-adjoint INDEFINITE matrices (LDL with 2x2 pivots) in very small and very large units, dense and sparse
+    for cls, cplx in (("symindef", False), ("symzd", False), ("symzd", True), ("csymindef", True), ("csym", True)):
+        for ue in (-40, -30, 30):
+            for k in ((None, 2) if not quick else (None if R.random() < 0.5 else 2,)):
+                out.append({"stream": "linsolve", "seed": seed(), "cls": cls, "cplx": cplx, "sparse": False, "solver": None, "k": k,
+                            "units": ue, "decouple": False, "lda": bool(R.random() < 0.7), "n": int(R.choice([2, 3, 4, 6]))})
     # SQUARE blocks of right-hand sides (k == n), with and without the LDA wrapper: the "vector or block" distinction of a solver
     # must go by the number of dimensions, never by a length that happens to coincide
     for cls in ("diag", "spd", "general"):
